@@ -100,3 +100,89 @@ def classes(f, b):
                         ev[k2] = ev.get(k2, ISet()) | reach
         res.append((kind, entries, ev, ra.mixed, rbi))
     return res
+
+
+def state_classes(f, b, state_field):
+    """Per value of an enum state field of self: {outcome: ISet} for the byte fetched by the (single) read site.
+    Outcomes: Malformed tuples, 'ascii:b' (write_ascii of the byte itself), 'write:<fn>:<const>', ('to', state), ('store', field, 'b')."""
+    r = Resolver(b)
+    sites = [x for x in fetch_sites(b) if x[0].startswith('read@')]
+    if len(sites) != 1:
+        return None
+    kind, entry, xk, dom, rbi = sites[0]
+    xkey = next(iter(xk))
+    reads = {bi for bi, t in b.calls() if (b.callee(t) or '').endswith(('ByteReadHandle::read', 'ByteSource::check_available'))}
+    ra = RangeAnalysis(f, b, xk, 8, dom, entries=[entry], stop=reads, opaque_ok=True, N=256)
+    SF = ('fld', ('deref', ('loc', 1)), state_field)
+    out = {}
+    for bi, blk in enumerate(b.blocks):
+        reach = ra.reach_of(bi) & dom
+        if not reach or bi in reads:
+            continue
+        st = [v for k, e, v, S in block_conditions(b, bi, r) if k == 'variant' and e == SF]
+        if len(st) != 1:
+            continue
+        arm = out.setdefault(st[0], {})
+
+        def add(k):
+            arm[k] = arm.get(k, ISet()) | reach
+        for loc, consts in malformed_in_block(b, bi, r):
+            add(('malformed', consts, read_component_kind(b, bi, r)))
+        for s_ in blk['s']:
+            if 'assign' in s_ and s_['assign']['l'] == 1 and s_['assign']['p'] and s_['assign']['p'][0] == 'deref':
+                fl = [e['field'] for e in s_['assign']['p'] if isinstance(e, dict) and 'field' in e]
+                val = r.rvalue(s_['rv'])
+                if fl == [state_field] and val[0] == 'agg':
+                    add(('to', variant_name(val)))
+                elif fl and val == xkey:
+                    add(('store', fl[0], 'b'))
+        t = blk['t']
+        if 'call' in t:
+            fn = b.callee(t) or ''
+            if 'Handle::write_' in fn:
+                a = r.operand(t['args'][1])
+                w = fn.rsplit('::', 1)[-1]
+                if a == xkey:
+                    add((w, 'b'))
+                elif a[0] == 'c':
+                    add((w, a[1]))
+                else:
+                    add((w, 'expr'))
+    return out, ra.mixed
+
+
+def validator_reject_set(f, fn):
+    """Exact set of byte values at which a byte-wise validator stops (returns the index)."""
+    b = f.body(fn)
+    if b is None:
+        return None
+    preds = [p for p in scalar_predicates(f, b) if p['bits'] == 8 and p['true_set'] is not None]
+    # the validator returns early on the union of its byte tests (a chain of ||): the blocks returning `i`
+    r = Resolver(b)
+    # x = the byte loaded in the loop: the common leaf of the predicates
+    leafs = {repr(p['leaf']) for p in preds}
+    if len(leafs) != 1 or not preds:
+        return None
+    leaf = preds[0]['leaf']
+    heads = {h for _, h in b.back_edges()}
+    # entry: the block where the leaf is first available = the block of the first predicate
+    first = min(p['bb'] for p in preds)
+    ra = RangeAnalysis(f, b, {leaf}, 8, ISet.of((0, 255)), entries=[first], stop=heads - {first}, N=256)
+    if ra.mixed:
+        return None
+    # blocks that return without reaching the loop head again
+    rej = ISet()
+    for bi in range(len(b.blocks)):
+        reach = ra.reach_of(bi)
+        if not reach:
+            continue
+        if 'return' in b.blocks[bi]['t'] or any('return' in b.blocks[s]['t'] for s in b.succ[bi]) and not (set(b.succ[bi]) & heads):
+            pass
+    # simpler: x values that can flow back to a loop head are accepted; the rest are rejected
+    acc = ISet()
+    for h in heads:
+        if h != first:
+            acc = acc | ra.reach_of(h)
+    for (x, h) in b.back_edges():
+        acc = acc | ra.reach_of(x)
+    return ISet.of((0, 255)) - acc
